@@ -810,6 +810,10 @@ def _wrap2(pyop, name):
         try:
             r = pyop(a, b)
         except TypeError:
+            plain = (int, float, Fr, str, bytes, list, tuple, dict, type(None))
+            if isinstance(a, plain) and isinstance(b, plain):
+                # python's own operands: the TypeError is the behaviour of the program (1 / 'x', [] - 1, None * 2.0 ...)
+                raise InterpRaise('unsupported operand type(s) for %s: %r and %r' % (name, type(a).__name__, type(b).__name__), 'TypeError')
             raise AnalysisError('unsupported operands for %s: %r, %r' % (name, type(a).__name__, type(b).__name__))
         if r is NotImplemented:
             raise AnalysisError('unsupported operands for %s: %r, %r' % (name, type(a).__name__, type(b).__name__))
